@@ -896,6 +896,12 @@ class PytatoKeyBuilder(LoopyKeyBuilder):
             # interchangeable with (and equal to) the Python int of the same
             # value wherever expressions hold integers (indices, shapes, shifts)
             self.update_for_int(key_hash, int(key))
+        elif isinstance(key, np.floating) and key.dtype.itemsize <= 8:
+            # equal to (and hashed like) the Python float of the same value:
+            # less(x, 2.0) == less(x, np.float64(2.0))
+            self.update_for_float(key_hash, float(key))
+        elif isinstance(key, np.complexfloating) and key.dtype.itemsize <= 16:
+            self.update_for_complex(key_hash, complex(key))
         else:
             # bytes alone do not identify a scalar: np.float32(2) and
             # np.int32(1073741824) have the same bytes
